@@ -625,7 +625,7 @@ fn odd_trees(ctx: &mut Ctx, global: &mut u64) {
     let fs = odd_fs();
     for follow in ["-P", "-L", "-H"] {
         for (vi, prim) in VOCAB.iter().enumerate() {
-            for mode in ["plain", "after-delete", "after-exec-rm"] {
+            for mode in ["plain", "after-delete", "after-exec-rm", "extreme-times"] {
                 *global += 1;
                 if !ctx.mine(*global) {
                     continue;
@@ -634,6 +634,15 @@ fn odd_trees(ctx: &mut Ctx, global: &mut u64) {
                 if let Err(e) = crate::sandbox::materialize(&fs, 0, &sbx) {
                     ctx.rep.machinery(format!("odd tree builder: {e}"));
                     return;
+                }
+                if mode == "extreme-times" {
+                    // timestamps no calendar can express (and just beyond year 9999 / before year 0)
+                    let far = 9_223_372_036_854_775i64;
+                    for (name, a, m) in [("t/plain", far, far), ("t/owned", -far, -far), ("t/sub", 253_402_300_800, -62_167_219_201), ("t/dangling", far, -far), ("t/fifo", -1, i64::from(i32::MAX) + 1)] {
+                        if let Err(e) = crate::props::labelled::set_times(&sbx.join(name), (a, 999_999_999), (m, 1)) {
+                            ctx.rep.machinery(format!("extreme times: {e}"));
+                        }
+                    }
                 }
                 let mut args: Vec<&str> = vec![follow, "t"];
                 match mode {
@@ -650,7 +659,7 @@ fn odd_trees(ctx: &mut Ctx, global: &mut u64) {
                 if let Err(p) = &got.code {
                     ctx.rep.violation(
                         &format!("C11 panic at {}", ploc(p)),
-                        format!("find {:?} (tree with unknown owners / removed entries): {p}", args),
+                        format!("find {:?} (tree with unknown owners / removed entries / timestamps outside every calendar): {p}", args),
                         json!({"prop":"C11","argv":args,"tree":"odd","vocab":vi}),
                     );
                 }
